@@ -229,6 +229,9 @@ def programs(draw, max_sub=6, max_rxn=6):
         "subst_idx": draw(st.integers(0, nr - 1)),
         "pexpr_idx": draw(st.integers(0, nr - 1)),
         "pexpr_coef": [_number(draw, "int" if mode == "float" else mode), _number(draw, "int" if mode == "float" else mode)],
+        # what parameter_expressions of the explicit builder overrides and by what (see configurations() in props/c04.py)
+        "pexpr": {"style": draw(st.sampled_from(["named", "unique"])), "kind": draw(st.sampled_from(["polyT", "num", "polyK"])),
+                  "other": draw(st.integers(0, 7)), "keep_key": draw(st.booleans())},
         # the optional symbol arguments of the explicit builder (_create_odesys)
         "sym": _symbol_arguments(draw, keys),
         # Substance.name of the objects stored under the substance keys
@@ -847,8 +850,12 @@ def _rename(subs, rxns, old, new):
                 rx[part] = {(new if k == old else k): v for k, v in rx[part].items()}
 
 
+# ReactionSystem.default_checks as read from chempy/reactionsystem.py (names of the constructor's optional checks)
+SYSTEM_CHECKS = ["balance", "substance_keys", "duplicate", "duplicate_names"]
+
+
 @st.composite
-def composed_systems(draw, max_rxn=6, broken=None, kinetics=False, dyadic_share=0, massless_share=0):
+def composed_systems(draw, max_rxn=6, broken=None, kinetics=False, dyadic_share=0, massless_share=0, history=False):
     """A system whose substances all carry compositions.
 
     broken: None -> drawn (about half of the cases get one broken reaction); False -> always balanced.
@@ -856,6 +863,8 @@ def composed_systems(draw, max_rxn=6, broken=None, kinetics=False, dyadic_share=
     dyadic_share: tenths of the cases whose compositions, charges and stoichiometric coefficients need not be integers
     (multiples of 1/8 .. 1/64: exactly representable, so "balanced" still means an exactly zero float net).
     massless_share: tenths of the cases with substances whose composition is {} or {0: 0} (see _draw_substances).
+    history: case["before"] = 0-2 earlier constructions in the same process (of the same description) through the
+    constructor's optional arguments: {"arg": "dont_check" | "checks", "names": subset of SYSTEM_CHECKS, "route": ...}.
     """
     dy = dyadic_share > 0 and draw(st.integers(0, 9)) >= 10 - dyadic_share
     kind, subs = _draw_substances(draw, dy, massless_share)
@@ -876,6 +885,11 @@ def composed_systems(draw, max_rxn=6, broken=None, kinetics=False, dyadic_share=
     do_break = (draw(st.integers(0, 9)) >= 4) if broken is None else broken
     if do_break:
         case["cls"], case["broken_at"] = _break(draw, subs, rxns, dy)
+    if history:
+        case["before"] = [{"arg": draw(st.sampled_from(["dont_check", "dont_check", "checks"])),
+                           "names": sorted(draw(st.sets(st.sampled_from(SYSTEM_CHECKS))), key=SYSTEM_CHECKS.index),
+                           "route": draw(st.sampled_from(["objects", "eqsys"]))}
+                          for _ in range(draw(st.integers(0, 2)))]
     if kinetics:
         mode = "float"
         for rx in rxns:
